@@ -257,6 +257,8 @@ def main(argv=None):
     failures = []
     for v in vspecs:
         r = unit_results[v['unit']]
+        if r.status != 'failed':
+            continue        # an undecided unit gives no verdict, whatever diagnostics it printed
         for fl in r.failures:
             if relevant(fl, v) and fl not in failures:
                 failures.append(fl)
